@@ -3,6 +3,7 @@
    (Gen/Persist.v, tied to prog0 and sp0 by the tie lemmas of Persist/Proofs.v); Persist/Model.v interprets
    them and lets a graceful terminate or a kill land after any instruction of any iteration,
    also between the counter increment and the write inside _send_result. *)
+From PW Require Persist.Forwarder Persist.ForwarderProofs Gen.Forwarder.
 From PW Require Import Persist.Model Gen.Persist Persist.Proofs.
 Open Scope Z_scope.
 
@@ -31,6 +32,32 @@ Theorem C06_generated_loops_are_the_proved_ones :
   /\ send_result_thread = sp0 /\ send_result_process = sp0 /\ send_result_remote = sp0.
 Proof. repeat split; reflexivity. Qed.
 
+(* Remote kind: between the child and the consumer sits the parent's frontend thread (PersistentRemoteWorker._fetch_results),
+   whose shape is regenerated from the source (Gen/Forwarder.v).  For every list of results, whether or not the child
+   got to send its end marker (carrying its counter, or counter+1 if it died between the increment and the send),
+   whether or not the final pair follows, and the connection going away after ANY number of messages: the consumer of
+   the results pipe sees a prefix of the child's results, in order and nothing else, and the stream ends - an end
+   marker is on the pipe, or the pipe is closed (EOF). *)
+Lemma C06_forwarder_shape : Persist.ForwarderProofs.good_fflags Gen.Forwarder.gen_fflags.
+Proof. repeat split; reflexivity. Qed.
+
+Theorem C06_remote_stream_is_prefix_and_ends :
+  forall vs marker final cut,
+    let '(o, closed) := Persist.Forwarder.forward Gen.Forwarder.gen_fflags (Persist.Forwarder.child_stream vs marker final cut) in
+    (exists j, Persist.Forwarder.results o = firstn j vs) /\ (Persist.Forwarder.ends o = true \/ closed = true).
+Proof. exact (Persist.ForwarderProofs.forward_prefix_and_ends Gen.Forwarder.gen_fflags C06_forwarder_shape). Qed.
+
+(* the two regressions this rules out, as theorems about the model with the other shape *)
+Theorem C06_refuted_if_asserts_precede_the_forwarding :
+  exists fl, Persist.ForwarderFlags.end_put_first fl = false /\ Persist.ForwarderFlags.closes_at_end fl = true /\ Persist.ForwarderFlags.exc_marker fl = true /\
+    Persist.Forwarder.forward fl (Persist.Forwarder.child_stream [5%Z] (Some true) true 3) = ([Persist.Forwarder.ORes 5%Z], false).
+Proof. exact Persist.ForwarderProofs.stream_never_ends_if_asserts_come_first. Qed.
+
+Theorem C06_refuted_if_the_pipe_is_closed_conditionally :
+  exists fl, Persist.ForwarderFlags.closes_at_end fl = false /\ Persist.ForwarderFlags.end_put_first fl = true /\
+    Persist.Forwarder.forward fl (Persist.Forwarder.child_stream [] None true 1) = ([], false).
+Proof. exact Persist.ForwarderProofs.stream_never_ends_if_close_is_conditional. Qed.
+
 Example C06_example :
   stream_after (fun a _ => fold_left (fun h e => h * 10 + fst e) a 0) true sp0 prog0 cleanup_thread
                [] false [] [mkEnq [1] []; mkEnq [2] []; mkEnq [3] []] 1 8 true CWTE
@@ -40,3 +67,6 @@ Proof. vm_compute. reflexivity. Qed.
 Print Assumptions C06_stream_is_prefix_and_ends.
 Print Assumptions C06_cleanup_of_each_kind.
 Print Assumptions C06_generated_loops_are_the_proved_ones.
+Print Assumptions C06_remote_stream_is_prefix_and_ends.
+Print Assumptions C06_refuted_if_asserts_precede_the_forwarding.
+Print Assumptions C06_refuted_if_the_pipe_is_closed_conditionally.
